@@ -568,6 +568,19 @@ def check(repo: Repo, run: Run) -> None:
                             cur = cur.a[0]
                         if cur == parsed and path:
                             leaves.add(".".join(reversed(path)))
+                # a member looked up in a table built from the registry (`{m.value: m for m in E}`) instead of through the class:
+                # iteration lists the named (for a Flag: the single-bit) members only, the class also accepts their combinations
+                dropped = _drop_selectors(strip_conditions(fv))
+                partial = [x for x in sym.walk(dropped) if x.op == "sub" and x.a[0] == T("global", ("<registry-selected table>",))]
+                has_class_call = any(x.op == "call" and x.a[0] == T("global", ("<registry-selected class>",)) for x in sym.walk(dropped))
+                lone_get = [x for x in sym.walk(dropped) if x.op == "call" and x.a[0] == T("global", ("<registry-selected table>.get",))
+                            and len(x.a[1]) == 1] if not has_class_call else []
+                if partial or lone_get:
+                    run.ob("R4", MOD, "OsLogEvent.parse_trace_identifier", f"TraceIdentifier.{fname}: every defined value has a member", False,
+                           f"TraceIdentifier.{fname} is looked up in a table derived from the registry "
+                           f"({sym.pretty((partial or lone_get)[0])[:60]}) with no way through the enum class itself: values the class "
+                           f"accepts but the table does not list (a combination of Flag members, value 0) raise KeyError or give None",
+                           line=pti.lineno, witness="a signpost identifier whose type byte is 0x81 (interval_begin | scope_process)")
                 # keep only maximal paths
                 leaves = {p for p in leaves if not any(q != p and q.startswith(p + ".") for q in leaves)}
                 got = sorted(bits.get(p) for p in leaves if p in bits)
@@ -611,6 +624,12 @@ def _drop_selectors(t: T) -> T:
             if x.op == "call" and x.a[0].op in ("sub", "call", "ite") and any(y.op == "global" for y in sym.walk(x.a[0])):
                 # the callee is itself computed from a registry (table[ns] / table.get(ns) / a conditional of those)
                 return T("call", (T("global", ("<registry-selected class>",)), go(x.a[1]), go(x.a[2])))
+            if x.op == "call" and x.a[0].op == "attr" and x.a[0].a[1] == "get" and x.a[0].a[0].op in ("sub", "call") \
+                    and any(y.op == "global" for y in sym.walk(x.a[0].a[0])):
+                # registry[ns].get(value): a table chosen by the selector, looked up by the value
+                return T("call", (T("global", ("<registry-selected table>.get",)), go(x.a[1]), go(x.a[2])))
+            if x.op == "sub" and x.a[0].op == "sub" and any(y.op == "global" for y in sym.walk(x.a[0])):
+                return T("sub", (T("global", ("<registry-selected table>",)), go(x.a[1])))
             return T(x.op, go(x.a))
         if isinstance(x, tuple):
             return tuple(go(e) for e in x)
